@@ -122,3 +122,20 @@ Definition fields_wf (f : bytes) : bool :=
   | Some items => match pairs_up items with Some _ => true | None => false end
   | None => false
   end.
+
+(* ---- the pipe worker (pkg/pipe/worker.go run + siterator.Get) and the {vars} element of the formatter ---- *)
+(* field.Parse: an error becomes the empty field list *)
+Definition field_parse (unquote : bytes -> option bytes) (s : bytes) : bytes :=
+  match fields_of_kv unquote s with Ok f => f | _ => [] end.
+(* what the destination partition of a pipe holds for an event with the field list [own], copied from the partition
+   with the tag set m: le.Fields.Concat(extFlds) with extFlds = field.Parse(srcTags line) -- the event's own fields
+   first (Fields.Value answers with the first field of a name: own fields win), then the provenance fields *)
+Definition pipe_fields (quote : bytes -> bytes) (unquote : bytes -> option bytes) (own : bytes) (m : kvmap) : bytes :=
+  own ++ field_parse unquote (line quote m).
+(* FormatParser.FormatStr for the element {vars}: the tag line as it was handed in and, unless the field list is
+   empty, ',' and Fields.AsKVString() *)
+Definition vars_text (quote : bytes -> bytes) (tl f : bytes) : outcome bytes :=
+  match f with
+  | [] => Ok tl
+  | _ :: _ => match as_kv quote f with Ok t => Ok (tl ++ COMMA :: t) | o => o end
+  end.
